@@ -378,7 +378,7 @@ def run_scenario(repo, ns, scen):
     stack.get_purpose_id = lambda remote_node_id, epr_socket_id: f(remote_node_id, epr_socket_id)
     socks = [pipe.epr_socket(sd["remote"], epr_socket_id=sd["sock"], remote_epr_socket_id=sd.get("remote_sock", 0))
              for sd in scen["sockets"]]
-    out = dict(ops=[dict(request=None, handles=None, bookkeeping=None) for _ in scen["ops"]], error=None)
+    out = dict(ops=[dict(request=None, handles=None, handles_late=None, bookkeeping=None) for _ in scen["ops"]], error=None)
     responses = []
     for k, op in enumerate(scen["ops"]):
         okm = resp_is_m(op["call"])
@@ -393,18 +393,22 @@ def run_scenario(repo, ns, scen):
     try:
         with pipe.connection(epr_sockets=socks) as conn:
             pending = []
+            kept = []
             for k, op in enumerate(scen["ops"]):
                 sock = socks[op["socket"]]
                 kw = kw_to_py(ns, op["kw"])
                 nreq = len(pipe.requests)
                 infos = qubits = meas = None
                 if op["call"] == "create_keep":
-                    qubits = sock.create_keep(**kw)
+                    qubits, infos = sock.create_keep_with_info(**kw)
                 elif op["call"] == "recv_keep":
-                    qubits = sock.recv_keep(**kw)
+                    qubits, infos = sock.recv_keep_with_info(**kw)
+                elif op["call"] == "recv_rsp":
+                    qubits, infos = sock.recv_rsp_with_info(**kw)
                 else:
                     meas = getattr(sock, op["call"])(**kw)
                 pending.append((k, qubits, infos, meas, nreq))
+                kept.append((k, qubits, infos, meas))
                 if scen.get("flush_each", True) or k == len(scen["ops"]) - 1:
                     conn.flush()
                     base = pending[0][4]
@@ -418,6 +422,9 @@ def run_scenario(repo, ns, scen):
                             q.measure()     # make room for the next operation
                     conn.flush()
                     pending = []
+            # every handle of every round once more, after all later rounds (subroutines) have run
+            for kk, qs, inf, ms in kept:
+                out["ops"][kk]["handles_late"] = read_handles(ns, conn, qs, inf, ms)
     except Exception as e:  # noqa
         out["error"] = type(e).__name__ + ": " + (str(e).splitlines()[0][:200] if str(e) else "")
     return out
